@@ -71,6 +71,16 @@ func init() {
 			}
 			return Slice{A: out}
 		},
+		"encoding/json.Marshal": func(in *Interp, fn *ssa.Function, a []Value) Value {
+			// reflection-based: not encodable. Opaque text (only acceptable where the result is logged); noted in the evidence.
+			in.ctx.ex.Notes["encoding/json.Marshal made opaque"]++
+			b := concreteStr("<json>")
+			out := make([]Value, len(b.B))
+			for i := range out {
+				out[i] = b.B[i]
+			}
+			return Tuple{Slice{A: out}, Iface{}}
+		},
 		"bytes.Compare": func(in *Interp, fn *ssa.Function, a []Value) Value {
 			x, y := a[0].(Slice), a[1].(Slice)
 			// lexicographic comparison as an ite chain (lengths are concrete)
